@@ -115,7 +115,12 @@ class CB:
                 # the window evaluation trips the breaker (-> Open); a helper of a recorder that makes another
                 # transition (e.g. an extracted half-open closing step) is part of that recorder
                 tgts = {tgt for (b_, _cs, tgt) in self.transition_calls() if b_ is b}
-                if callers and callers <= recs and tgts == {"Open"}:
+                # ... and it *evaluates*: its transition is decided by a comparison with a configured threshold; a helper that
+                # re-opens unconditionally (`reopen_after_failed_probe`) is a step of the recorder that calls it
+                decides = any(e["kind"] == "bool" and any(mentions_field(tr, e["node"], fld_) for fld_ in
+                                                          ("failure_rate_threshold", "slow_call_rate_threshold", "minimum_number_of_calls"))
+                              for (b_, cs_, _t) in self.transition_calls() if b_ is b for e in dominating_edges(tr, b, cs_.bb))
+                if callers and callers <= recs and tgts == {"Open"} and decides:
                     roles[b.def_] = "evaluate"
 
     def _lift_transition(self):
